@@ -64,9 +64,11 @@ type vConn struct {
 	// and its result is the result of the write.
 	onWrite func(w *vWrite) error
 	// event log shared with the driver
-	events []vEvent
-	closed bool
+	events                            []vEvent
+	closed                            bool
 	readsAfterClose, writesAfterClose int
+	// readDelay makes every successful read take this long (virtual): a slow listener
+	readDelay time.Duration
 }
 
 type vEvent struct {
@@ -89,7 +91,11 @@ func (c *vConn) ReadFrom() (ndp.Message, *ipv6.ControlMessage, netip.Addr, error
 		c.readsAfterClose++
 	}
 	dc := c.deadlineC
+	rd := c.readDelay
 	c.mu.Unlock()
+	if rd > 0 {
+		time.Sleep(rd)
+	}
 	// A pending datagram wins over an expired deadline only if it is already there; a real
 	// socket reports the timeout when nothing is queued.
 	select {
